@@ -205,3 +205,22 @@ Example ex_hdr : wf_hdr (ex_h (2 ^ 64 - 1) 255) = true /\
   enc_hdr (ex_h 72623859790382856 255) = [8; 7; 6; 5; 4; 3; 2; 1; 7; 7; 7; 9; 52; 18; 255; 90] /\
   u24_set 16777215 = Ok [255; 255; 255] /\ u24_set 16777216 = Panic 1.
 Proof. vm_compute. repeat split; reflexivity. Qed.
+
+(* ---------------------------------------------------------------------------------------- *)
+(* Kernel ties: the arithmetic kernels of pkg/intel/metadata/fit this property rests on, as TRANSCRIBED FROM
+   THE GO SOURCE on every run (translator/Kernels.sh -> Gen/GoKernels.v), equal the functions of
+   the model (Proofs/KernelTieFit.v).  A change of one of these Go functions breaks the lemma. *)
+From Fiano Require Import Base.Bytes Base.GoInt Gen.GoKernels Proofs.KernelTieFit.
+Local Open Scope Z_scope.
+
+Theorem C14_kernel_CalculatePhysAddrFromOffset : forall off size, go_CalculatePhysAddrFromOffset off size = Fit.phys_of_offset off size.
+Proof. exact go_CalculatePhysAddrFromOffset_tie. Qed.
+Print Assumptions C14_kernel_CalculatePhysAddrFromOffset.
+
+Theorem C14_kernel_CalculateOffsetFromPhysAddr : forall addr size, go_CalculateOffsetFromPhysAddr addr size = Fit.offset_of_phys addr size.
+Proof. exact go_CalculateOffsetFromPhysAddr_tie. Qed.
+Print Assumptions C14_kernel_CalculateOffsetFromPhysAddr.
+
+Theorem C14_kernel_CalculateTailOffsetFromPhysAddr : forall addr, go_CalculateTailOffsetFromPhysAddr addr = Fit.tail_offset_of_phys addr.
+Proof. exact go_CalculateTailOffsetFromPhysAddr_tie. Qed.
+Print Assumptions C14_kernel_CalculateTailOffsetFromPhysAddr.
